@@ -135,11 +135,13 @@ def structural(rng, maxn):
 def weigh(rng, g, style=None):
     """assign positive integer weights; style: unit | ties | wide | pow2 (all subset sums distinct)"""
     n, es = g
-    style = style or rng.choice(["unit", "ties", "ties", "wide", "pow2"])
+    style = style or rng.choice(["unit", "ties", "ties", "wide", "pow2", "f32tie"])
     if style == "pow2" and len(es) > 40: style = "wide"
     if style == "unit": ws = [1] * len(es)
     elif style == "ties": ws = [rng.randint(1, 4) for _ in es]
     elif style == "wide": ws = [rng.randint(1, 1000) for _ in es]
+    elif style == "f32tie":        # integers that are distinct as doubles/ints but collide in single precision (2^24 + small offsets)
+        ws = [(1 << 24) + rng.randint(0, 6) for _ in es]
     else:
         ws = [1 << i for i in range(len(es))]; rng.shuffle(ws)
     return (n, [(u, v, w) for (u, v, _), w in zip(es, ws)]), style
